@@ -55,6 +55,26 @@ theorem weighted01_self : ∀ (data : List (Nat × Rat)), weighted01 data (data.
     simp only [List.map_cons, weighted01, if_true, zero_add]
     exact weighted01_self data
 
+/-! ### all combined weights zero (the F12 shape) -/
+
+theorem labels_all_zero (w : List Rat) (hz : ∀ x ∈ w, x = 0) :
+    (relabel w).map (·.1) = List.replicate w.length 0 := by
+  rw [relabel_def, List.map_map]
+  apply List.eq_replicate_iff.mpr
+  refine ⟨by simp, ?_⟩
+  intro b hb
+  obtain ⟨x, hx, rfl⟩ := List.mem_map.mp hb
+  simp [hz x hx]
+
+theorem eraseDups_replicate_succ (n : Nat) (a : Nat) : (List.replicate (n + 1) a).eraseDups = [a] := by
+  rw [List.replicate_succ, List.eraseDups_cons]
+  have : (List.replicate n a).filter (fun b => !b == a) = [] := by
+    rw [List.filter_eq_nil_iff]
+    intro b hb
+    rw [List.mem_replicate] at hb
+    simp [hb.2]
+  rw [this]; simp
+
 /-! ### the default offset -/
 
 theorem zipWith_withOffset_default : ∀ (lam : List Rat),
